@@ -3,19 +3,7 @@
 From Icv Require Import Base.Tac Apply.ArModel.
 Local Open Scope Z_scope.
 
-(* ---- premises (the negated signatures of the two recorded findings) ---- *)
-
-(* the `for` key/value variable does not hide the target: frame.Locals->Set(fkvar, ...) comes AFTER
-   Set("host", host) / Set("service", service) *)
-Definition ar_is_target_var (x : ar_str) : bool := ar_str_eqb x ar_s_host || ar_str_eqb x ar_s_service.
-Definition ar_no_shadow (r : ar_rule) : bool :=
-  match ar_rule_index r with
-  | AIRegular => true
-  | _ => match ar_r_for r with
-         | None => true
-         | Some (fk, fv, _) => negb (ar_is_target_var fk) && negb (ar_is_target_var fv)
-         end
-  end.
+(* ---- premise (the negated signature of the one remaining recorded finding) ---- *)
 
 (* evaluating the `for` set throws on no target (array given to a key=>value iterator or dictionary
    given to a plain one): the indexed path never evaluates it on targets it is not indexed under *)
@@ -28,22 +16,17 @@ Definition ar_for_ok (genv : ar_env) (inv : list ar_host) (r : ar_rule) : bool :
   end.
 
 Definition ar_premises (genv : ar_env) (inv : list ar_host) (rules : list ar_rule) : bool :=
-  forallb ar_no_shadow rules
-  && forallb (ar_for_ok genv inv) (filter ar_is_svc_rule rules)
+  forallb (ar_for_ok genv inv) (filter ar_is_svc_rule rules)
   && match ar_run (ar_eval_rule false genv) inv (filter ar_is_svc_rule rules) with
      | None => true
      | Some svcs => forallb (ar_for_ok genv (ar_add_services inv svcs)) (filter (fun r => negb (ar_is_svc_rule r)) rules)
      end.
 
-(* API: the filter_vars the recogniser resolves are what the evaluation sees (a filter variable
-   named host/service/obj is overwritten by the target), and names are '!'-free *)
-Definition ar_api_vars_ok (fvars : list (ar_str * ar_value)) : bool :=
-  forallb (fun kv => negb (ar_is_target_var (fst kv) || ar_str_eqb (fst kv) ar_s_obj)) fvars.
+(* API: names are '!'-free (ConfigItemBuilder enforces it), so "<host>!<service>" lookups are unambiguous *)
 Definition ar_nobang (s : ar_str) : bool := negb (existsb (Z.eqb ar_bang) s).
 Definition ar_inv_nobang (inv : list ar_host) : bool :=
   forallb (fun h => ar_nobang (ar_h_name h) && forallb (fun s => ar_nobang (ar_sv_name s)) (ar_h_svcs h)) inv.
-Definition ar_api_premises (inv : list ar_host) (fvars : list (ar_str * ar_value)) : bool :=
-  ar_api_vars_ok fvars && ar_inv_nobang inv.
+Definition ar_api_premises (inv : list ar_host) : bool := ar_inv_nobang inv.
 
 (* ---- comparison of observed object sets ---- *)
 Fixpoint ar_vsame (a b : ar_value) {struct a} : bool :=
@@ -117,10 +100,9 @@ Definition ar_oracle (genv : ar_env) (inv : list ar_host) (rules wrules : list a
     else if negb (ar_same_res wrapped (ar_apply genv inv wrules)) then 4
     else if ar_same_res plain wrapped then 0 else 5.
 
-(* which premise fails (for classification): 1 shadowed target variable, 2 `for` error on an unindexed target *)
+(* which premise fails (for classification): 2 `for` error on an unindexed target *)
 Definition ar_premise_class (genv : ar_env) (inv : list ar_host) (rules : list ar_rule) : Z :=
-  if negb (forallb ar_no_shadow rules) then 1
-  else if ar_premises genv inv rules then 0 else 2.
+  if ar_premises genv inv rules then 0 else 2.
 
 (* ---- API oracle: results as lists of (host, service short name) keys, None = the query threw *)
 Definition ar_key_eqb (a b : ar_str * ar_str) : bool := ar_str_eqb (fst a) (fst b) && ar_str_eqb (snd a) (snd b).
@@ -134,7 +116,7 @@ Definition ar_same_keys (a b : option (list (ar_str * ar_str))) : bool :=
 
 Definition ar_api_oracle (genv : ar_env) (inv : list ar_host) (to_svc : bool) (fvars : list (ar_str * ar_value))
            (f : ar_expr) (plain wrapped : option (list (ar_str * ar_str))) : Z :=
-  if ar_api_premises inv fvars then
+  if ar_api_premises inv then
     if negb (ar_same_keys plain wrapped) then 1
     else if negb (ar_same_keys plain (ar_api_plain genv inv to_svc fvars f)) then 2
     else 0
